@@ -1,7 +1,9 @@
 (* Property C01 — outbound data path: routing by longest prefix, padding,
    transport framing, at-most-once transmission of tun packets.
    Only statements, closed by `exact`, with Print Assumptions. *)
+From Coq Require Import String.
 From WG Require Import Base.Prelude Gen.Constants DataPath.Lpm Outbound.Model Outbound.Proofs.
+From WG Require Import Outbound.PadAst Gen.PadAst Outbound.PadAstProofs.
 Local Open Scope N_scope.
 
 (* The constants the property text names, as the code has them now. *)
@@ -296,3 +298,23 @@ Example C01_nonvacuous_race :
   outs step (ex_st (Some 3)) [TunBatch [ex_pkt]; answer_race 1 9 4 8 104 true; Roam 1 4; TunBatch [ex_pkt]]
   = [[OInit 1 3]; [OData 1 104 8 0 ex_pkt 1420]; []; [OData 1 4 8 1 ex_pkt 1420]].
 Proof. split; vm_compute; reflexivity. Qed.
+
+(* THE TIE TO THE SOURCE for the padding rule (translator harness/cmd/padast, rerun
+   on every check): Gen.PadAst.pad_body is the body of calculatePaddingSize of
+   device/send.go as a term of the deep-embedded language of Outbound/PadAst.v
+   (Go int as Z with 64-bit two's-complement wrap, % as Z.rem, the complement
+   ^(PaddingMultiple-1) folded by the translator from the const declaration).
+   The interpreted source is the model's pad_len, and it satisfies the sentence
+   of the property: for a packet no larger than the MTU the padded length is
+   the length rounded up to a multiple of 16, capped at the MTU, with fewer
+   than 16 bytes added. *)
+Theorem C01_source_padding_is_the_model : forall p m : Z, (0 <= p < 2 ^ 31)%Z -> (0 <= m < 2 ^ 31)%Z ->
+  run_pad pad_body p m = Some (pad_len p m).
+Proof. exact ast_pad_correct. Qed.
+Print Assumptions C01_source_padding_is_the_model.
+
+Theorem C01_source_padding_rule : forall len mtu : Z, (0 < len <= mtu)%Z -> (mtu < 2 ^ 31)%Z ->
+  exists pad, run_pad pad_body len mtu = Some pad /\ (0 <= pad < 16)%Z /\
+              (len + pad)%Z = Z.min (Outbound.Proofs.roundup16 len) mtu.
+Proof. exact ast_pad_c01. Qed.
+Print Assumptions C01_source_padding_rule.
